@@ -157,8 +157,10 @@ func (l *linter) run(bconf buildConfig) (lintResult, error) {
 func (l *linter) lint(r *runner.Runner, cfg *packages.Config, patterns []string) (lintResult, error) {
 	var out lintResult
 
-	as := make([]*analysis.Analyzer, 0, len(l.analyzers))
-	for _, a := range l.analyzers {
+	// Iterate over the list of analyzers we were given, not over the map,
+	// so that analyzers run, and report their problems, in a fixed order.
+	as := make([]*analysis.Analyzer, 0, len(l.opts.analyzers))
+	for _, a := range l.opts.analyzers {
 		as = append(as, a.Analyzer)
 	}
 	results, err := r.Run(cfg, as, patterns)
